@@ -334,6 +334,11 @@ def check_valid(ctx, case):
         img.save(bio, format="jpeg", quality=case["quality"], subsampling=0)
         data = bio.getvalue()
     c2 = dict(case)
+    # decoding malformed data first must not poison later decodes
+    c2["data"] = data[:max(0, len(data) // 2)]
+    decode_outcome(ctx, c2)
+    c2["data"] = data[::-1]
+    decode_outcome(ctx, c2)
     c2["data"] = data
     outcome, deep, out = decode_outcome(ctx, c2)
     if outcome != "array":
